@@ -240,6 +240,9 @@ def check_expectations(case, hist, key0):
             elif exp == "true":
                 okay = rr == ("val", True)
                 rule = "false-instead-of-true"
+            elif exp == "status":
+                okay = rr[0] == "status" and isinstance(rr[1], int) and isinstance(rr[2], int)
+                rule = "remote-status-failed"
             elif exp == "false":
                 okay = rr == ("val", False)
                 rule = "true-instead-of-false"
